@@ -48,6 +48,27 @@ def multimodal_desc(rng, tag):
     return {'family': 'F6thr', 'name': tag, 'rows': rows, 'prms': {'SLICING_PRMS': {'distance_threshold': 0.9}}, 'indomain': True}
 
 
+def prm_sensitive_desc(rng, tag, j):
+    """ two thin decks a few hundred feet apart in a chunk whose stage parameters are NOT the defaults: slicing, grouping and
+    layering come out differently when another chunk's per-call values are used (every thread gets other values) """
+    base = rng.choice([1000, 3000])
+    gap = rng.choice([400, 500])
+    rows = []
+    for i in range(40):
+        rows.append(['a', -15.0 * (39 - i), base + rng.randint(-10, 10), 1])
+        rows.append(['a', -15.0 * (39 - i), base + gap + rng.randint(-10, 10), 2])
+    thr = [0.2, 0.8, 0.5][j % 3]
+    prms = {'SLICING_PRMS': {'distance_threshold': thr},
+            'GROUPING_PRMS': {'height_pad_perc': [10, 400, 60][j % 3], 'dt_scale_kwargs': {'scale': [180, 100000, 20][j % 3]}},
+            'LAYERING_PRMS': {'min_okta_to_split': [2, 9, 0][j % 3], 'gmm_kwargs': {'scores': ['BIC', 'AIC', 'BIC'][j % 3]}},
+            'MAX_HITS_OKTA0': [3, 0, 30][j % 3], 'MIN_SEP_VALS': [[250, 1000], [2000, 2000], [0, 0]][j % 3]}
+    return {'family': 'F6prm', 'name': tag, 'rows': rows, 'prms': prms, 'indomain': True}
+
+
+STAGE_FUNCS = ['find_slices', 'find_groups', 'find_layers', '_merge_close_groups', 'metarize', 'metar_msg', '_setup_sligrolay_pdf',
+               '_exclude_for_base_height_calc', 'max_hits_per_layer', '__init__', 'prms']
+
+
 def run(out, tier, seed):
     rng = random.Random(seed + 13)
     mcs = []
@@ -87,6 +108,15 @@ def run(out, tier, seed):
             job['chunks'] = [multimodal_desc(random.Random(f'C13mm:{seed}:{k}:{j}'), f'thr:{k}:mm{j}') for j in range(n)]
             job['hot'] = ['tmp_seed', 'ncomp_from_gmm', 'agglomerative_cluster', 'clusterize'] if k % 4 == 0 else ['tmp_seed']
         tjobs.append(job)
+    # per-call stage parameters that differ between the threads, on data that is sensitive to them; every line of the stage
+    # methods is a pre-emption point (a value that travels through shared state between two lines is overwritten in between)
+    for k in range(16 if tier == 'quick' else 200):
+        n = 2 if k % 2 else 3
+        r2 = random.Random(f'C13prm:{seed}:{k}')
+        off = r2.randrange(3)
+        tjobs.append({'name': f'thrp:{k}', 'nstages': 5, 'preempt': [[] for _ in range(n)],
+                      'chunks': [prm_sensitive_desc(r2, f'thrp:{k}:p{j}', j + off) for j in range(n)],
+                      'hot': STAGE_FUNCS if k % 4 else STAGE_FUNCS[:3]})
     # executed and judged in batches (the recorded pairs of a thorough run do not fit in memory at once)
     work = [('run_interleaving', j) for j in jobs] + [('run_threads', j) for j in tjobs]
     npairs, inexact, switches = 0, 0, 0
